@@ -492,12 +492,16 @@ bool AnalyserInternalEquation::check(const AnalyserModelPtr &model,
         // its unknown variables. Either way, we must remove our "dependencies"
         // on our unknown variables or we will end up in a circular dependency.
 
-        for (const auto &unknownVariable : mUnknownVariables) {
-            auto it = std::find(mDependencies.begin(), mDependencies.end(), unknownVariable->mVariable);
+        // Note: a dependency may have been recorded through another variable of
+        //       the unknown variable's equivalence class (e.g., the one that
+        //       initialises it), hence we look for equivalent variables.
 
-            if (it != mDependencies.end()) {
-                mDependencies.erase(it);
-            }
+        for (const auto &unknownVariable : mUnknownVariables) {
+            mDependencies.erase(std::remove_if(mDependencies.begin(), mDependencies.end(),
+                                               [&](const VariablePtr &dependency) {
+                                                   return model->areEquivalentVariables(dependency, unknownVariable->mVariable);
+                                               }),
+                                mDependencies.end());
         }
 
         return true;
